@@ -478,7 +478,7 @@ pub fn mangle(rng: &mut Rng, s: &[u8], layouts: &[Layout]) -> Vec<u8> {
 pub fn run(ctx: &mut Ctx) {
     let quick = ctx.quick();
     // ---- family A: grammar streams
-    let n_a = ctx.budget(320, 4000);
+    let n_a = ctx.budget(320, 10000);
     for i in 0..n_a {
         if !ctx.mine(i) {
             continue;
